@@ -194,6 +194,12 @@ def unpack_impl(pkt, raw, offset, **k):
             module = SourceFileLoader(module_name,
                                       module_pathname).load_module()
 
+            # another process defining a same-named packet may have replaced
+            # the file in the meantime: what we loaded is then code generated
+            # for its declaration, not ours. Keep the generic implementation.
+            if getattr(module, 'BISTURI_PACKET_COOKIE', None) != cookie:
+                return
+
         from bisturi.packet import Packet
         if self.generate_for_pack and (
             self.pkt_class.pack_impl == Packet.pack_impl
